@@ -1,7 +1,9 @@
 package c17
 
 import (
+	"encoding/json"
 	"fmt"
+	"github.com/go-kid/ioc/configure/binder"
 	"math"
 	"reflect"
 	"strconv"
@@ -267,6 +269,14 @@ func TestRoundTrip(t *testing.T) {
 		if err != nil {
 			t.Skip("yaml")
 		}
+		// the same document as JSON, read through the JSON binder (numbers arrive as float64 there: integers beyond
+		// 2^53 and numbers in any-typed positions are left to the YAML runs)
+		format := "yaml"
+		if rapid.IntRange(0, 3).Draw(t, "json") == 0 && jsonSafe(rv) {
+			if jd, jerr := json.Marshal(map[string]any{"c17": map[string]any{"key": jsonView(rv), "other": 1}}); jerr == nil {
+				doc, format = jd, "json"
+			}
+		}
 		fields := []reflect.StructField{
 			{Name: "P", Type: typ, Tag: `prefix:"c17.key"`},
 			{Name: "V", Type: typ, Tag: `value:"${c17.key}"`},
@@ -300,8 +310,15 @@ func TestRoundTrip(t *testing.T) {
 				prefilled = false
 			}
 		}
-		out := kit.RunApp(app.SetComponents(obj.Interface()), app.SetConfigLoader(loader.NewRawLoader(doc)))
+		ops := []app.SettingOption{app.SetComponents(obj.Interface()), app.SetConfigLoader(loader.NewRawLoader(doc))}
+		if format == "json" {
+			ops = append(ops, app.SetConfigBinder(binder.NewViperBinder("json")))
+		}
+		out := kit.RunApp(ops...)
 		desc := fmt.Sprintf("%s %#v%s", k.Name, norm(rv), dc)
+		if format == "json" {
+			desc += " (json)"
+		}
 		ev := rv
 		for ev.Kind() == reflect.Pointer && !ev.IsNil() {
 			ev = ev.Elem()
@@ -353,7 +370,7 @@ func TestRoundTrip(t *testing.T) {
 				t.Fatalf("C17: %s binds %#v where prefix:\"k\" binds %#v: the key is configured, its default must not apply (%s)\nyaml:\n%s", obj.Elem().Type().Field(i).Tag, norm(obj.Elem().Field(i)), norm(p), k.Name, doc)
 			}
 		}
-		labels := append([]string{"kind/" + k.Name}, dc.Labels()...)
+		labels := append([]string{"kind/" + k.Name, "format/" + format}, dc.Labels()...)
 		if prefilled {
 			labels = append(labels, "prefilled-fields")
 		}
@@ -363,6 +380,44 @@ func TestRoundTrip(t *testing.T) {
 		kit.Rec.Case(desc, nontrivial(rv) || prefilled || rv.IsZero(), labels...)
 	})
 }
+
+// jsonSafe: the value survives encoding/json + a float64 number model (no integer beyond 2^53, no number in an
+// any-typed position, no struct - their yaml tags mean nothing to encoding/json).
+func jsonSafe(v reflect.Value) bool {
+	switch v.Kind() {
+	case reflect.Int, reflect.Int8, reflect.Int16, reflect.Int32, reflect.Int64:
+		return v.Int() > -(1<<53) && v.Int() < 1<<53
+	case reflect.Uint, reflect.Uint8, reflect.Uint16, reflect.Uint32, reflect.Uint64:
+		return v.Uint() < 1<<53
+	case reflect.Float32, reflect.Float64:
+		f := v.Float()
+		return f == math.Trunc(f) && math.Abs(f) < 1<<53 || math.Abs(f) < 1e15 && math.Abs(f) > 1e-6
+	case reflect.Bool, reflect.String:
+		return true
+	case reflect.Pointer:
+		return !v.IsNil() && jsonSafe(v.Elem())
+	case reflect.Slice:
+		for i := 0; i < v.Len(); i++ {
+			if !jsonSafe(v.Index(i)) {
+				return false
+			}
+		}
+		return v.Len() > 0
+	case reflect.Map:
+		if v.Type().Elem().Kind() == reflect.Interface {
+			return false
+		}
+		for _, k := range v.MapKeys() {
+			if !jsonSafe(v.MapIndex(k)) {
+				return false
+			}
+		}
+		return v.Len() > 0
+	}
+	return false
+}
+
+func jsonView(v reflect.Value) any { return v.Interface() }
 
 var defaultFor = map[string]string{"int": "3", "int8": "3", "int32": "3", "int64": "3", "uint": "3", "uint8": "3", "uint64": "3", "float64": "0.75", "float32": "0.75", "bool": "true", "string": "dflt"}
 
@@ -725,7 +780,6 @@ func TestConversions(t *testing.T) {
 		kit.Rec.Case(desc, true, fmt.Sprintf("conversion/%T", want))
 	})
 }
-
 
 // ---- structs against configuration subtrees that do not match one to one, and values that cannot be converted ----
 
